@@ -423,20 +423,32 @@ Section SignalProofs.
   Qed.
 End SignalProofs.
 
+(* whichever of the four comparison operators the source uses *)
+Definition known_op (op : bytes) : bool :=
+  bytes_eqb op [60] || bytes_eqb op [62] || bytes_eqb op [60; 61] || bytes_eqb op [62; 61].
+
+Lemma cmp_holds_exclusive op c :
+  known_op op = true -> c <> Eq -> xorb (cmp_holds op c) (cmp_holds op (CompOpp c)) = true.
+Proof.
+  unfold known_op, cmp_holds. intros H HC.
+  destruct (bytes_eqb op [60]); [destruct c; cbn; congruence|].
+  destruct (bytes_eqb op [62]); [destruct c; cbn; congruence|].
+  destruct (bytes_eqb op [60; 61]); [destruct c; cbn; congruence|].
+  destruct (bytes_eqb op [62; 61]); [destruct c; cbn; congruence|discriminate].
+Qed.
+
+Lemma is_offerer_exclusive a b : a <> b -> xorb (is_offerer a b) (is_offerer b a) = true.
+Proof.
+  intros H. unfold is_offerer. rewrite (lex_cmp_antisym a b).
+  apply cmp_holds_exclusive; [reflexivity|]. intros E. apply lex_cmp_eq in E. contradiction.
+Qed.
+
 Lemma offerer_exclusive a b :
   a <> b -> xorb (tracker_offerer a b) (tracker_offerer b a) = true.
 Proof.
-  intros H. unfold tracker_offerer, is_offerer. change args_local_first with true. cbv iota.
-  change (cmp_holds webrtc_offerer_cmp) with (fun c : comparison => match c with Lt => true | _ => false end).
-  cbv beta. rewrite (lex_cmp_antisym a b).
-  destruct (lex_cmp a b) eqn:E; cbn; try reflexivity. apply lex_cmp_eq in E. contradiction.
-Qed.
-
-Lemma offerer_irrefl a : tracker_offerer a a = false.
-Proof.
-  unfold tracker_offerer, is_offerer. change args_local_first with true. cbv iota.
-  change (cmp_holds webrtc_offerer_cmp) with (fun c : comparison => match c with Lt => true | _ => false end).
-  cbv beta. rewrite lex_cmp_refl. reflexivity.
+  intros H. unfold tracker_offerer. destruct args_local_first.
+  - apply is_offerer_exclusive, H.
+  - apply is_offerer_exclusive. congruence.
 Qed.
 
 Lemma link_only_signalled offerer p r :
